@@ -65,7 +65,10 @@ func (ms *metaStore) metaPath(bucket string, object string) metaPath {
 	return metaPath{bucket, object + "-" + hex.EncodeToString(h.Sum(nil))}
 }
 
-func (ms *metaStore) loadMeta(bucket string, object string, size int64, mtime time.Time) (*Metadata, error) {
+// loadMeta returns the metadata stored for the object. If there is none, or it
+// no longer matches the size and modification time of the object's file, the
+// hash is recomputed from that file, found at objectFilePath in objectFs.
+func (ms *metaStore) loadMeta(bucket string, object string, size int64, mtime time.Time, objectFs afero.Fs, objectFilePath string) (*Metadata, error) {
 	metaPath := ms.metaPath(bucket, object)
 	fullPath := metaPath.FilePath()
 
@@ -90,13 +93,15 @@ func (ms *metaStore) loadMeta(bucket string, object string, size int64, mtime ti
 	if len(meta.Hash) == 0 || meta.Size != size || modDiff < -modRes || modDiff > modRes {
 		meta.Size = size
 		meta.ModTime = mtime
-		meta.Hash, err = hashFile(ms.fs, fullPath)
+		meta.Hash, err = hashFile(objectFs, objectFilePath)
 		if err != nil {
 			return nil, err
 		}
-		if err := ms.saveMeta(metaPath, &meta); err != nil {
-			return nil, err
-		}
+
+		// The stored metadata is only a cache of the hash at this point; if it
+		// cannot be written (the flattened name may be too long for the
+		// filesystem, for example) the object must still be readable.
+		_ = ms.saveMeta(metaPath, &meta)
 	}
 
 	return &meta, nil
